@@ -33,7 +33,11 @@ class LinguaMakoExtractor(Extractor, MessageExtractor):
             yield from self.process_file(file_)
 
     def process_python(self, code, code_lineno, translator_strings):
-        source = code.getvalue().strip()
+        source = code.getvalue()
+        # the lines removed from the start of the code, including the one
+        # the base class prepends, are not seen by the python extractor
+        skipped = source[: len(source) - len(source.lstrip())].count("\n")
+        source = source.strip()
         if source.endswith(":"):
             if source in ("try:", "else:") or source.startswith("except"):
                 source = ""  # Ignore try/except and else
@@ -42,7 +46,7 @@ class LinguaMakoExtractor(Extractor, MessageExtractor):
             source += "pass"
         code = io.StringIO(source)
         for msg in self.python_extractor(
-            self.filename, self.options, code, code_lineno - 1
+            self.filename, self.options, code, code_lineno - 1 + skipped
         ):
             if translator_strings:
                 msg = Message(
